@@ -13,7 +13,9 @@ class multi_config_build_graph:
     ensures = {
         # each font is the one its own configuration would produce alone: the files its font
         # edge reads exist, are built with that configuration's variables, no two edges share
-        # an output, and the combined part file's inputs agree
+        # an output, the combined part file's inputs agree, and every file a step reads
+        # (config, features, glyph map, part file) is a declared input of its edge, so that
+        # a re-run in a used build directory rebuilds the font when an option changed
         "each-configuration-gets-its-own-intermediates": lambda a, b, result: G.graph_problems(a, b, result) == [],
     }
     known_witnesses = {
